@@ -94,6 +94,12 @@ def units(run: Run):
     for kind in ("sq", "budget"):
         g = layered_game(5, kind)
         us.append((5, f"layer-{kind}", A.shifted(g, (1, -1, 2, 0, 3)), ("fresh",), 0.0))
+    convex5 = tuple(A.popcount(s) * (A.popcount(s) - 1) // 2 for s in range(32))
+    for i, g in enumerate(A.a5_pair_closure_reps()):
+        if quick and i % 3 != seed % 3:
+            continue
+        gv = A.shifted(g, (1, -1, 2, 0, 3)) if i % 4 < 2 else tuple(a + b for a, b in zip(g, convex5))
+        us.append((5, f"pairgraph#{i}", gv, ("fresh",), 0.0))
     # float-valued generator families (tolerance G2)
     width = 2 if quick else 8
     for name in gens.SA_FAMILIES:
